@@ -13,7 +13,7 @@ TRUSTED = [
     "Spec/MasterSpec.v: the filter grammar (denote) and reply pages, written from the Master Server Query Protocol",
     "the expected filter groups of an insertion sequence (a later filter of a kind replaces the earlier, per group) are computed by the check from the property text",
 ]
-RULE = ("all insertion sequences of length <= 2 (quick) / <= 3 (thorough) over the 18 filter kinds x 3 groups with boundary values, random sequences up to 12, all 9 regions; "
+RULE = ("groups of 9 to 18 distinct filters (two-digit counts); " "all insertion sequences of length <= 2 (quick) / <= 3 (thorough) over the 18 filter kinds x 3 groups with boundary values, random sequences up to 12, all 9 regions; "
         "listings of 1-6 pages of 0-231 entries from the extracted Spec generator with the terminator at any position; "
         "non-trivial = at least two insertions or at least two pages; distinct by case bytes")
 
